@@ -14,6 +14,7 @@ from vmc.engine import guarded
 
 ID = 'C19'
 ALPHA = space.alphabet('NOT', 'AND', 'GT', 'XOR', 'ALWAYS_TRUE', 'ALWAYS_FALSE')
+RS_ALPHA = space.alphabet('NOT', 'AND', 'XOR')
 
 
 def plan(tier):
@@ -24,6 +25,12 @@ def plan(tier):
     for n, k, split, pol in fams:
         for tk in space.tasks(n, k, ALPHA, split):
             tk.update(pol=pol)
+            t.append(tk)
+    if tier == 'quick':
+        # slices with inner structure AND outside users need >= 3 gates: a small-alphabet family,
+        # replace_subcircuit only, two replacement styles
+        for tk in space.tasks(2, 3, RS_ALPHA, 2):
+            tk.update(pol='last', rs_only=True)
             t.append(tk)
     return t
 
@@ -36,7 +43,7 @@ def describe(tier):
         'replacement in {fresh copy of the slice, canonical mux-tree re-synthesis, copy with double negation} x boundary labels '
         '{kept, fresh}). Oracle: reference truth tables positionally, netlist model of rename / cofactor, well-formedness; '
         'for replace_subcircuit: unchanged table + well-formed, or a CircuitError. distinct = distinct (operation, outcome).',
-        'bounds': {'quick': 'F(1,<=2), F(2,<=2), F(3,1)', 'thorough': '+ F(2,3), F(3,2), F(1,3) (outputs (last),(last,x0),())'}[tier],
+        'bounds': {'quick': 'F(1,<=2), F(2,<=2), F(3,1); replace_subcircuit additionally on F(2,3,{NOT,AND,XOR}) (last-gate output, copy and double-negation replacements)', 'thorough': '+ F(2,3), F(3,2), F(1,3) (outputs (last),(last,x0),())'}[tier],
         'exhaustive': True,
         'assumptions': ['vmc.refmodel; "functionally equivalent" = equal as functions of the free slice inputs'],
     }
@@ -297,7 +304,7 @@ def replacements(net, I, O, sl):
         yield f'mux/{style}', sub2, {i: rmap[f'M_i{j}'] for j, i in enumerate(I)}, {o: ol for o, ol in zip(O, out_labels)}
 
 
-def check_replace_subcircuit(n, gates, outs, blk, acc, net, ref, only=None):
+def check_replace_subcircuit(n, gates, outs, blk, acc, net, ref, only=None, tags=None):
     from cirbo.core.circuit.exceptions import CircuitError
 
     labs = list(net.gates)
@@ -315,6 +322,8 @@ def check_replace_subcircuit(n, gates, outs, blk, acc, net, ref, only=None):
                         continue
                     for tag, sub, imap, omap in replacements(net, I, O, sl):
                         if only is not None and only != [list(I), list(O), tag]:
+                            continue
+                        if tags is not None and tag not in tags:
                             continue
                         acc.transitions += 1
                         acc.traces += 1
@@ -373,8 +382,15 @@ def _build(n, gates, outs, blk):
     return c
 
 
-def check_circuit(n, gates, acc, pol):
+def check_circuit(n, gates, acc, pol, rs_only=False, alpha=None):
     from vmc.props import c03
+
+    if rs_only:
+        outs = (n + len(gates) - 1,)
+        net = space.spec_net(n, gates, outs)
+        acc.states += 1
+        check_replace_subcircuit(n, gates, outs, False, acc, net, net.tables(), tags=('copy/kept', 'dneg/fresh'))
+        return
 
     k = len(gates)
     if pol == 'all':
@@ -396,8 +412,9 @@ def check_circuit(n, gates, acc, pol):
 
 
 def run_task(task, acc):
-    for gates in space.enum_gates(task['n'], task['k'], ALPHA, space.prefix_from_task(task)):
-        check_circuit(task['n'], gates, acc, task['pol'])
+    alpha = RS_ALPHA if task.get('rs_only') else ALPHA
+    for gates in space.enum_gates(task['n'], task['k'], alpha, space.prefix_from_task(task)):
+        check_circuit(task['n'], gates, acc, task['pol'], task.get('rs_only', False))
 
 
 def replay(case, acc):
